@@ -26,6 +26,10 @@ _Val.declare("VO", ("oval", I))        # opaque object (callables, enum members.
 Val = _Val.create()
 
 
+pymod = z3.Function("pymod", I, I, I)    # a % b for a symbolic divisor b > 0 (kept out of z3's non-linear arithmetic)
+pydiv = z3.Function("pydiv", I, I, I)    # a // b for a symbolic divisor b > 0
+
+
 class SeqTheory:
     """Functions and axioms of one sequence sort."""
 
@@ -90,7 +94,7 @@ class SeqTheory:
         A.append(FA([s, n], z3.Implies(n >= 0, ln(rep(s, n)) == ln(s) * n), patterns=[rep(s, n)]))
         A.append(FA([s, n], z3.Implies(n <= 0, rep(s, n) == self.empty), patterns=[rep(s, n)]))
         A.append(FA([s, n, i], z3.Implies(z3.And(0 <= i, i < ln(s) * n, ln(s) > 0),
-                                          at(rep(s, n), i) == at(s, i % ln(s))),
+                                          at(rep(s, n), i) == at(s, pymod(i, ln(s)))),
                     patterns=[at(rep(s, n), i)]))
         return A
 
@@ -320,11 +324,13 @@ def lib_axioms():
 
 
 def arith_axioms():
-    """Facts about div/mod with a symbolic positive divisor (theorems of integer arithmetic)."""
+    """Facts about // and % with a symbolic positive divisor (theorems of integer arithmetic); the product
+    b * (a // b) is linked to a at each use site by the executor."""
     a, b = z3.Ints("a_m b_m")
     return [
-        FA([a, b], z3.Implies(z3.And(0 <= a, a < b), a % b == a), patterns=[a % b]),
-        FA([a, b], z3.Implies(b > 0, z3.And(0 <= a % b, a % b < b)), patterns=[a % b]),
+        FA([a, b], z3.Implies(z3.And(0 <= a, a < b), z3.And(pymod(a, b) == a, pydiv(a, b) == 0)), patterns=[pymod(a, b)]),
+        FA([a, b], z3.Implies(b > 0, z3.And(0 <= pymod(a, b), pymod(a, b) < b)), patterns=[pymod(a, b)]),
+        FA([a], z3.And(pymod(a, 1) == 0, pydiv(a, 1) == a), patterns=[pymod(a, 1)]),
     ]
 
 
